@@ -130,3 +130,8 @@ Example C02_failed_load_nonvacuous :
   (forall e, snd (load_entry_f default_fuel s0 TI "a") <> ROk e) /\ plain TI = true /\
   cache (fst (fst (load_entry_f default_fuel s0 TI "a"))) = [].
 Proof. vm_compute. repeat split. intros e H; discriminate H. Qed.
+
+(* the slow path of a load hands its entry to the map's insert and does nothing else with the map:
+   the loser of a creation race is dropped by insert, it never overwrites the winner *)
+Theorem C02_code_add_asset_loads_then_inserts : add_asset_wf Gen.Anycache.RawCache_add_asset = true.
+Proof. exact add_asset_loads_then_inserts. Qed.
